@@ -55,6 +55,11 @@ def _c11(run, drv, rng, tier):
     props_c08.check_c11(run, drv, rng, tier)
 
 
+def _c19(run, drv, rng, tier):
+    from . import props_c19
+    props_c19.check(run, drv, rng, tier)
+
+
 def _c13(run, drv, rng, tier):
     from . import props_c13
     props_c13.check(run, drv, rng, tier)
@@ -273,5 +278,19 @@ PROPS = {
                 "length 3; the elaborated (normalised) type of every message is compared three ways; distinct by message "
                 "path and type",
         "assumptions": FRONT_ASSUME,
+    },
+    "C19": {
+        "modules": ["BpModel.Props.C19"],
+        "theorems": ["Bp.C19.C19_getMask", "Bp.C19.C19_getNbitsToCopy", "Bp.C19.C19_min", "Bp.C19.C19_smartShift",
+                     "Bp.C19.C19_smartShift_masked", "Bp.C19.C19_bool_byte", "Bp.C19.C19_storage_smallest",
+                     "Bp.C19.C19_sign_pair", "Bp.C19.C19_sign_needed"],
+        "explore": _c19,
+        "correspondence": "generated .go text parsed structurally vs the abstract schema and vs the Python module's processor tree",
+        "rule": "generated schemas (nesting, aliases, enums, arrays, extensible markers); per message: struct fields "
+                "(order, Go types, JSON tags), size constants (Go = Python = ceil(N/8)), processor tree resolved through "
+                "enum/alias/message BpProcessor methods, BpSetByte/BpGetByte/BpGetAccessor/BpProcessInt case tables "
+                "(label, data reference, index depth, conversion type, sign shifts); distinct by processor tree",
+        "assumptions": ["Go is never compiled or executed: Go claims rest on the Go-subset translator for the helpers and on "
+                        "structural parsing of the generated text; Go operator semantics as in Model/GoOp.lean"],
     },
 }
